@@ -1,6 +1,6 @@
 #!/usr/bin/env python3
-"""Collects confirmed seeded changes and the detection results of tools/muttest.py from the logs under
-/verif/work into /verif/seeded/<id>/ and /verif/seeded/INDEX.json."""
+"""Collects the confirmed seeded changes (work/confirm*.log) and the detection results of the final matrix
+(work/muttest_final.log, written by tools/matrix.py) into /verif/seeded/<id>/ and /verif/seeded/INDEX.json."""
 import glob, json, os, re, subprocess
 verdict = {}
 for f in sorted(glob.glob("/verif/work/confirm*.log")):
@@ -10,7 +10,8 @@ for f in sorted(glob.glob("/verif/work/confirm*.log")):
             verdict[m.group(1)] = (m.group(2) + "-" + m.group(3), m.group(4).strip())
 ok = {k: v for k, v in verdict.items() if re.search(r"demo_with_patch_exit=[1-9]\d* tests_exit=0 .* demo_without_patch_exit=0", v[1])}
 caught, missed = {}, {}
-for f in sorted(glob.glob("/verif/work/muttest*.log"), key=os.path.getmtime):
+# detection results: the final matrix only (tools/matrix.py run on the finished machinery)
+for f in ["/verif/work/muttest_final.log"]:
     cur = None
     for l in open(f):
         m = re.match(r"### (/tmp/mut/C\d+/_out/m\d)/patch.diff", l)
